@@ -885,7 +885,7 @@ macro_rules! tiny_dispatch {
         match ($fw, $fh) {
             $(($w, $h) => build_tiny::<$w, $h>($cfg, $bd, $c666, $light),)*
             _ => tiny_init_dispatch!($cfg, $bd, $fw, $fh, $light;
-                (32767, 32768), (32768, 32767), (65534, 65535), (240, 320), (320, 480), (240, 536), (2, 3)),
+                (32767, 32768), (32768, 32767), (65534, 65535), (240, 320), (320, 480), (240, 536), (1, 240), (240, 1), (240, 240), (240, 65535), (65535, 240), (65535, 32768), (128, 160)),
         }
     };
 }
